@@ -191,7 +191,10 @@ def model_event(t, tree, opt, filters, pre, answers, code=None):
             wd = EG.loc_of(o[2:])
     return {"e": "ExpectModel", "items": items, "filters": [list(f) for f in filters],
             "opts": {"flat": "i" in opt, "wd": wd, "policy": "all" if any(o == "f" or o.startswith("q") for o in opt) else "prompt"},
-            "pre": [{"comps": EG.loc_of(rel), "size": len(val), "crc": arc.crc16(val), "mode": 0o644} for (rel, kind, val, md) in pre],
+            "pre": [{"comps": EG.loc_of(rel), "ty": kind, "size": len(val or b"") if kind == "file" else 0, "crc": arc.crc16(val) if kind == "file" else 0, "mode": md,
+                     "traw": val.hex() if kind == "link" else "",
+                     "live": kind != "link" or any(r2 == os.path.normpath(os.path.join(os.path.dirname(rel), val.decode("latin1"))) for (r2, k2, v2, m2) in pre)}
+                    for (rel, kind, val, md) in pre],
             "answers": list(answers), "tree": tree, **({"code": code} if code is not None else {})}
 
 
@@ -227,7 +230,19 @@ def model_case(rng, t, opt):
             if rel in seen:
                 continue
             seen.add(rel)
-            pre.append((rel.decode("ascii"), "file", b"old contents %d" % len(pre), 0o644))
+            q = rng.random()
+            rels = rel.decode("ascii")
+            if q < 0.7:
+                pre.append((rels, "file", b"old contents %d" % len(pre), 0o644))
+            else:
+                # a symbolic link where the archived file belongs: to a directory, to a file, to nothing (all inside the tree)
+                tn = "zz_t%d" % len(pre)
+                trel = os.path.join(os.path.dirname(rels), tn)
+                if q < 0.82:
+                    pre.append((trel, "dir", None, 0o755))
+                elif q < 0.92:
+                    pre.append((trel, "file", b"link target %d" % len(pre), 0o644))
+                pre.append((rels, "link", tn.encode(), 0o777))
     lines = [rng.choice([b"y", b"n", b"", b"Y", b"N", b"x", b"yes", b"no way", b"  y", b"q", b"A", b"S", b"a", b"s"]) for _ in range(rng.randint(0, 6))]
     if rng.random() < 0.75:
         lines.append(rng.choice([b"a", b"s", b"All", b"skip"]))        # (otherwise the input may end at a prompt: the tool exits there)
